@@ -60,7 +60,7 @@ def gen_doc(rng):
     if rng.random() < 0.4:
         doc["variables"] = smap()
     if rng.random() < 0.3:
-        doc["import"] = [rng.choice(["inc.yaml", "sub", "missing.yaml", "inc.yaml"])]
+        doc["import"] = [rng.choice(["inc.yaml", "sub", "missing.yaml", "inc.yaml", ".", "sub/a.yaml"])]
     if rng.random() < 0.2:
         doc["debug"] = rng.random() < 0.5
     if rng.random() < 0.2:
@@ -176,7 +176,9 @@ def gen_cases(ctx):
             k = rng.randrange(len(lines))
             lines.insert(k, lines[k])                                  # duplicated line (duplicate key)
             tb = b"\n".join(lines)
-        extra = {"inc.yaml": "tasks: {inc: {command: [\"true\"]}}\n", "sub/a.yaml": "tasks: {suba: {command: [\"true\"]}}\n",
+        # imported files import each other, themselves and their own directory: the traversal must still end
+        extra = {"inc.yaml": "import: [\"inc.yaml\", \"sub/a.yaml\", \".\"]\ntasks: {inc: {command: [\"true\"]}}\n",
+                 "sub/a.yaml": "import: [\"../inc.yaml\", \"a.yaml\"]\ntasks: {suba: {command: [\"true\"]}}\n",
                  "e.env": rng.choice(ENV_FILES).decode("latin1"), "a.txt": "x", "b.txt": "y"}
         add("mutated" if mutated else "grammar", fmt, tb, extra)
     for y in YAML_SPECIALS:
